@@ -269,6 +269,30 @@ fn wild_time(rng: &mut Rng) -> Val {
     Val::Tuple(vec![Val::U(h as u128), Val::U(m as u128), Val::U(s as u128), Val::U(n as u128)])
 }
 
+/// the corners of the representable range: first / last representable day x start / end of day
+fn edge_datetime(rng: &mut Rng) -> Val {
+    let date = if rng.chance(1, 2) {
+        Val::Tuple(vec![Val::I(YEAR_MAX as i128), Val::U(12), Val::U(31)])
+    } else {
+        Val::Tuple(vec![Val::I(YEAR_MIN as i128), Val::U(1), Val::U(1)])
+    };
+    let time = match rng.below(4) {
+        0 => Val::Tuple(vec![Val::U(0), Val::U(0), Val::U(0), Val::U(0)]),
+        1 => Val::Tuple(vec![Val::U(23), Val::U(59), Val::U(59), Val::U(999_999_999)]),
+        2 => Val::Tuple(vec![Val::U(23), Val::U(59), Val::U(59), Val::U(0)]),
+        _ => Val::Tuple(vec![Val::U(rng.below(24) as u128), Val::U(rng.below(60) as u128), Val::U(rng.below(60) as u128), Val::U(0)]),
+    };
+    Val::Tuple(vec![date, time])
+}
+
+fn wild_datetime(rng: &mut Rng) -> Val {
+    if rng.chance(1, 3) {
+        edge_datetime(rng)
+    } else {
+        Val::Tuple(vec![wild_date(rng), wild_time(rng)])
+    }
+}
+
 fn wild_offset(rng: &mut Rng) -> Val {
     Val::I(wild(rng, &[0, 86_399, -86_399, 86_400, -86_400, i32::MAX as i64, i32::MIN as i64, 1, -1, 3600], -100_000, 100_000) as i128)
 }
@@ -295,11 +319,11 @@ fn gen(ty: &Ty, rng: &mut Rng, ctx: &GenCtx, depth: usize) -> Val {
             }
             Ty::NaiveDate => return wild_date(rng),
             Ty::NaiveTime => return wild_time(rng),
-            Ty::NaiveDateTime | Ty::DateTimeLocal => return Val::Tuple(vec![wild_date(rng), wild_time(rng)]),
-            Ty::DateTimeFixed => return Val::Tuple(vec![Val::Tuple(vec![wild_date(rng), wild_time(rng)]), wild_offset(rng)]),
+            Ty::NaiveDateTime | Ty::DateTimeLocal => return wild_datetime(rng),
+            Ty::DateTimeFixed => return Val::Tuple(vec![wild_datetime(rng), wild_offset(rng)]),
             Ty::DateTimeTz => {
                 let tz = gen(&Ty::Tz, rng, ctx, depth);
-                return Val::Tuple(vec![Val::Tuple(vec![wild_date(rng), wild_time(rng)]), tz]);
+                return Val::Tuple(vec![wild_datetime(rng), tz]);
             }
             Ty::Duration => {
                 let s = if rng.chance(1, 2) { u64::MAX as u128 } else { uint(rng, 64) };
@@ -361,7 +385,12 @@ fn gen(ty: &Ty, rng: &mut Rng, ctx: &GenCtx, depth: usize) -> Val {
         }
         Ty::Tuple(ts) => Val::Tuple(ts.iter().map(|t| gen(t, rng, ctx, depth + 1)).collect()),
         Ty::Seq(t) | Ty::Set(t) => {
-            let n = gen_len(rng, ctx, depth);
+            // elements with an empty encoding cost nothing on the wire: now and then a count that needs three varint bytes
+            let n = if ctx.allow_large && depth == 0 && matches!(ty, Ty::Seq(_)) && t.may_encode_empty() && rng.chance(1, 6) {
+                *rng.pick(&[65_535usize, 65_536, 65_537, 70_000])
+            } else {
+                gen_len(rng, ctx, depth)
+            };
             Val::Seq((0..n).map(|_| gen(t, rng, ctx, depth + 1)).collect())
         }
         Ty::Map(k, v) => {
